@@ -18,8 +18,8 @@ use std::rc::Rc;
 use std::time::{Duration, Instant, SystemTime};
 
 /// session timeout used for expiry cases and the real time one `tick` sleeps (strictly more than the timeout)
-const T_MS: u64 = 120;
-const TICK_MS: u64 = 170;
+const T_MS: u64 = 1500;
+const TICK_MS: u64 = 1700;
 const RACE_T_MS: u64 = 8;
 const BASE_S: u64 = 1_700_000_000;
 
@@ -210,6 +210,8 @@ fn make_stream(ep: &UDPEndpoint, tsi: u64, seed: u64, nobj: u32) -> Stream {
 
 thread_local! {
     /// annotation of the last executed operation: ` #<key>=<n>` per session = number of writer callbacks it made
+    /// sessions closed by cleanup (not by drop) in the last `race`
+    static RACE_IN_CLEANUP: std::cell::Cell<u64> = std::cell::Cell::new(0);
     static LAST_ANNOT: RefCell<String> = RefCell::new(String::new());
     /// observation of the `cbs` line that may follow the last executed operation
     static LAST_CB: RefCell<String> = RefCell::new(String::new());
@@ -247,9 +249,40 @@ fn default_probes() -> Vec<(UDPEndpoint, u64)> {
     v
 }
 
-fn garbage() -> Vec<u8> {
-    // version nibble 0: "FLUTE version 0 is not supported"
-    vec![0x00, 0x00, 0x01, 0x00, 0xde, 0xad, 0xbe, 0xef]
+thread_local! {
+    static GARBAGE: RefCell<Vec<Rc<Vec<u8>>>> = RefCell::new(Vec::new());
+}
+
+/// datagrams that flute's own parser rejects (checked here, not assumed): empty / too short, unsupported version,
+/// genuine packets truncated inside the header, with an impossible header length, with an unknown FEC codepoint
+fn garbage_variants() -> Vec<Rc<Vec<u8>>> {
+    let cached = GARBAGE.with(|g| g.borrow().clone());
+    if !cached.is_empty() {
+        return cached;
+    }
+    let ep = UDPEndpoint::new(None, "224.0.1.0".to_string(), 5000);
+    let st = make_stream(&ep, 1, 777, 1);
+    let mut cands: Vec<Vec<u8>> = vec![vec![0x00, 0x00, 0x01, 0x00, 0xde, 0xad, 0xbe, 0xef], vec![], vec![0x10], vec![0x10, 0x00, 0x00]];
+    for p in st.pkts.iter().take(3) {
+        for cut in [5usize, 9, 13] {
+            if p.len() > cut {
+                cands.push(p[..cut].to_vec());
+            }
+        }
+        let mut q = (**p).clone();
+        q[2] = 0xff;
+        cands.push(q);
+        let mut q = (**p).clone();
+        q[3] = 200;
+        cands.push(q);
+    }
+    let v: Vec<Rc<Vec<u8>>> = cands
+        .into_iter()
+        .filter(|d| matches!(guarded(AssertUnwindSafe(|| flute::core::alc::parse_alc_pkt(d).is_err())), Ok(true)))
+        .map(Rc::new)
+        .collect();
+    GARBAGE.with(|g| *g.borrow_mut() = v.clone());
+    v
 }
 
 // ---------------------------------------------------------------------------------------------------------
@@ -346,13 +379,16 @@ pub struct TsiEngine {
     pending: BTreeSet<String>,
     stale: BTreeSet<String>,
     hist: Vec<HOp>,
+    reps: Vec<Rep>,
     all_ev: Vec<(bool, String)>,
     all_cb: Vec<Cb>,
     had_tick: bool,
     has_neutral_edits: bool,
     opn: u64,
     /// secondary listeners: id -> (log, index into all_ev at registration, index at removal)
-    sec: HashMap<u64, (EvLog, usize, Option<usize>)>,
+    sec: HashMap<u64, (EvLog, usize, Option<usize>, u64)>,
+    /// wall-clock instant of the last accepted data packet per key (diagnosis of harness stalls only)
+    last_data: HashMap<String, Instant>,
     pub completes: usize,
     pub sessions_with_complete: usize,
 }
@@ -369,12 +405,14 @@ impl TsiEngine {
             pending: BTreeSet::new(),
             stale: BTreeSet::new(),
             hist: Vec::new(),
+            reps: Vec::new(),
             all_ev: Vec::new(),
             all_cb: Vec::new(),
             had_tick: false,
             has_neutral_edits: false,
             opn: 0,
             sec: HashMap::new(),
+            last_data: HashMap::new(),
             completes: 0,
             sessions_with_complete: 0,
         }
@@ -489,11 +527,6 @@ impl TsiEngine {
             }
             bits.push(if opened { '1' } else { '0' });
         }
-        for c in l.cb.borrow().iter() {
-            if !probes.iter().any(|(e, t)| key_tok(e, *t) == c.key) {
-                o.fail("callback-key", &format!("callback carries {} which is no probed key", c.key));
-            }
-        }
         bits
     }
 
@@ -558,7 +591,7 @@ impl TsiEngine {
                 self.has_neutral_edits = true;
             }
             let acc = self.spec.accepted(&ep, tsi);
-            self.hist.push(HOp::Push { ep: ep.clone(), key: key.clone(), data: data.clone(), now, neutral, a_edit, close, acc });
+            self.record(HOp::Push { ep: ep.clone(), key: key.clone(), data: data.clone(), now, neutral, a_edit, close, acc });
         }
         let r = {
             let l = self.live.as_mut().unwrap();
@@ -566,17 +599,13 @@ impl TsiEngine {
         };
         let evs = self.take_events();
         let cbs = self.take_cbs();
-        let res = match r {
-            Err(_) => {
-                // a panic is an observation (the model never panics here), not a clause of C18
-                return "PANIC".into();
-            }
-            Ok(Ok(())) => "ok",
-            // a Close Object flag put on an arbitrary packet may legitimately make the session's Receiver answer Err
-            // (its result is part of the opaque per-session output, not of the demultiplexer's behaviour)
-            Ok(Err(_)) if b_edit => "ok",
-            Ok(Err(_)) => "err",
-        };
+        // Ok / Err of a datagram is not part of C18 (for a dispatched packet it is the opaque Receiver's result, for an
+        // unparsable one it is C04's): only "returned" vs "panicked" is printed
+        if r.is_err() {
+            return "PANIC".into();
+        }
+        let res = "ok";
+        let _ = b_edit;
         let was_pending = self.pending.contains(&key);
         for (op, k) in evs.iter() {
             if *k != key {
@@ -593,8 +622,8 @@ impl TsiEngine {
         let closed = evs.iter().any(|(op, k)| !*op && *k == key);
         match kind {
             "x" => {
-                if res != "err" || !evs.is_empty() || !cbs.is_empty() {
-                    o.fail("garbage-processed", "an unparsable datagram must be rejected with Err and no effect");
+                if !evs.is_empty() || !cbs.is_empty() {
+                    o.fail("garbage-processed", "an unparsable datagram must have no effect on sessions, listeners and writers");
                 }
             }
             _ => {
@@ -607,6 +636,7 @@ impl TsiEngine {
                         o.fail("filter-accept", &format!("packet {} must be processed but no session was opened for it", key));
                     }
                     self.stale.remove(&key);
+                    self.last_data.insert(key.clone(), Instant::now());
                 }
                 if acc && kind == "c" && was_pending && !closed {
                     o.fail("listener-missing-close", &format!("close-session packet for the open session {} fired no on_session_closed", key));
@@ -620,8 +650,17 @@ impl TsiEngine {
         if self.live.is_none() {
             return "bad-op".into();
         }
+        if self.timeout {
+            for k in self.pending.iter().filter(|k| !self.stale.contains(*k)) {
+                if let Some(t) = self.last_data.get(k) {
+                    if t.elapsed() > Duration::from_millis(T_MS / 2) {
+                        eprintln!("tsi: HARNESS STALL: {:?} since the last packet of the fresh session {} (session time-out {} ms); expiry observations of this case may be off", t.elapsed(), k, T_MS);
+                    }
+                }
+            }
+        }
         let now = self.now();
-        self.hist.push(HOp::Cleanup(now));
+        self.record(HOp::Cleanup(now));
         let r = {
             let l = self.live.as_mut().unwrap();
             guarded(AssertUnwindSafe(|| l.mr.cleanup(now)))
@@ -662,7 +701,7 @@ impl TsiEngine {
         if self.live.is_none() {
             return "bad-op".into();
         }
-        self.hist.push(HOp::Drop);
+        self.record(HOp::Drop);
         let l = self.live.take().unwrap();
         let Live { mr, ev, cb } = l;
         let r = guarded(AssertUnwindSafe(move || drop(mr)));
@@ -709,15 +748,22 @@ impl TsiEngine {
         let creation = t0.elapsed();
         let t1 = Instant::now();
         let budget = creation + Duration::from_millis(3 * RACE_T_MS + 30);
-        while t1.elapsed() < budget {
+        // the wall clock only bounds the loop (the verdict is the balance after drop); it goes on until sessions really
+        // expired inside cleanup - otherwise the scenario would not exercise what it is for - with a hard cap of 5 s
+        loop {
             l.mr.cleanup(now);
-            let done = {
-                let e = l.ev.borrow();
-                e.len() >= 2 * n
-            };
-            if done {
+            let closes = l.ev.borrow().iter().filter(|e| !e.0).count();
+            if closes >= n || (t1.elapsed() >= budget && closes > 0) || t1.elapsed() >= Duration::from_secs(5) {
                 break;
             }
+        }
+        let in_cleanup = l.ev.borrow().iter().filter(|e| !e.0).count();
+        RACE_IN_CLEANUP.with(|c| c.set(in_cleanup as u64));
+        if in_cleanup == 0 && n > 0 {
+            o.fail(
+                "listener-expiry-not-closed",
+                &format!("none of {} sessions (session time-out {} ms) was closed by 5 s of continuous cleanup", n, RACE_T_MS),
+            );
         }
         let Live { mr, ev, .. } = l;
         drop(mr);
@@ -747,84 +793,35 @@ impl TsiEngine {
         format!("opens {} closes {}", opens, closes)
     }
 
-    /// Replays this case's history once on fresh MultiReceivers, two per key, each fed only the packets of its key
-    /// (one sleep per tick for all of them):
+    /// Records one operation of the case and applies it, in lock-step with the receiver under test, to two fresh
+    /// MultiReceivers per key, each fed only the packets of its key (created at the key's first packet; the filter /
+    /// construction operations seen so far are replayed into them first).  Living side by side with the receiver under
+    /// test they see the same wall-clock spacing, so session expiry needs no second sleep:
     ///  * solo: the same packets and the same filter operations;
     ///  * reference: filtering is OFF and a packet is pushed iff the independent reference counters accepted it at that
     ///    point (so a wrong filter decision for a packet of an already open session shows as a delivery difference);
     ///    packets edited in a delivery-neutral, RFC-legal way are replaced by what they stand for: a packet with the
     ///    Close Session flag set = the same packet without the flag followed by a bare close-session packet (ignored
     ///    altogether, like any close indication, when the session does not exist); a rewritten CCI = the unedited packet.
-    fn replay_all(&self, keys: &BTreeSet<String>) -> Vec<Rep> {
-        let mut reps: Vec<Rep> = Vec::new();
-        for k in keys {
-            for reference in [false, true] {
-                reps.push(Rep { key: k.clone(), reference, live: None, evs: Vec::new(), cbs: Vec::new() });
-            }
-        }
-        for h in self.hist.iter() {
-            match h {
-                HOp::Tick => std::thread::sleep(Duration::from_millis(TICK_MS)),
-                HOp::New(f, t) => {
-                    for r in reps.iter_mut() {
-                        r.finish();
-                        r.live = Some(new_live(if r.reference { false } else { *f }, *t, T_MS));
-                    }
-                }
-                HOp::Drop => {
-                    for r in reps.iter_mut() {
-                        r.finish();
-                    }
-                }
-                _ => {
-                    for r in reps.iter_mut() {
-                        let Rep { key, reference, live, evs, cbs } = r;
-                        let l = match live.as_mut() {
-                            Some(l) => l,
-                            None => continue,
-                        };
-                        match h {
-                            HOp::Add(e, t) if !*reference => l.mr.add_listen_tsi(e.clone(), *t),
-                            HOp::Rm(e, t) if !*reference => l.mr.remove_listen_tsi(e, *t),
-                            HOp::AddAll(e) if !*reference => l.mr.add_listen_all_tsi(e.clone()),
-                            HOp::RmAll(e) if !*reference => l.mr.remove_listen_all_tsi(e),
-                            HOp::Filt(b) if !*reference => l.mr.set_tsi_filtering(*b),
-                            HOp::Push { ep, key: k, data, now, neutral, a_edit, close, acc } if k == key => {
-                                if !*reference {
-                                    let _ = guarded(AssertUnwindSafe(|| l.mr.push(ep, data, *now)));
-                                } else if *acc {
-                                    match neutral {
-                                        Some(plain) if *a_edit => {
-                                            let open = evs.iter().rev().find(|e| e.1 == *k).map(|e| e.0).unwrap_or(false);
-                                            if open {
-                                                let _ = guarded(AssertUnwindSafe(|| l.mr.push(ep, plain, *now)));
-                                                if let Some(c) = close {
-                                                    let _ = guarded(AssertUnwindSafe(|| l.mr.push(ep, c, *now)));
-                                                }
-                                            }
-                                        }
-                                        Some(plain) => {
-                                            let _ = guarded(AssertUnwindSafe(|| l.mr.push(ep, plain, *now)));
-                                        }
-                                        None => {
-                                            let _ = guarded(AssertUnwindSafe(|| l.mr.push(ep, data, *now)));
-                                        }
-                                    }
-                                }
-                            }
-                            HOp::Cleanup(now) => l.mr.cleanup(*now),
-                            _ => {}
+    fn record(&mut self, h: HOp) {
+        if let HOp::Push { key, .. } = &h {
+            if !self.reps.iter().any(|r| r.key == *key) {
+                for reference in [false, true] {
+                    let mut r = Rep { key: key.clone(), reference, live: None, evs: Vec::new(), cbs: Vec::new() };
+                    for old in self.hist.iter() {
+                        match old {
+                            HOp::Push { .. } | HOp::Tick | HOp::Cleanup(_) => {}
+                            _ => r.apply(old),
                         }
-                        evs.extend(l.ev.borrow_mut().drain(..));
-                        cbs.extend(l.cb.borrow_mut().drain(..));
                     }
+                    self.reps.push(r);
                 }
             }
         }
-        for r in reps.iter_mut() {
-            r.finish();
+        for r in self.reps.iter_mut() {
+            r.apply(&h);
         }
-        reps
+        self.hist.push(h);
     }
 }
 
@@ -836,6 +833,59 @@ struct Rep {
     cbs: Vec<Cb>,
 }
 impl Rep {
+    fn apply(&mut self, h: &HOp) {
+        match h {
+            HOp::Tick => {}
+            HOp::New(f, t) => {
+                self.finish();
+                self.live = Some(new_live(if self.reference { false } else { *f }, *t, T_MS));
+            }
+            HOp::Drop => self.finish(),
+            _ => {
+                let Rep { key, reference, live, evs, cbs } = self;
+                let l = match live.as_mut() {
+                    Some(l) => l,
+                    None => return,
+                };
+                match h {
+                    HOp::Add(e, t) if !*reference => l.mr.add_listen_tsi(e.clone(), *t),
+                    HOp::Rm(e, t) if !*reference => l.mr.remove_listen_tsi(e, *t),
+                    HOp::AddAll(e) if !*reference => l.mr.add_listen_all_tsi(e.clone()),
+                    HOp::RmAll(e) if !*reference => l.mr.remove_listen_all_tsi(e),
+                    HOp::Filt(b) if !*reference => l.mr.set_tsi_filtering(*b),
+                    HOp::Push { ep, key: k, data, now, neutral, a_edit, close, acc } if k == key => {
+                        if !*reference {
+                            let _ = guarded(AssertUnwindSafe(|| l.mr.push(ep, data, *now)));
+                        } else if *acc {
+                            match neutral {
+                                Some(plain) if *a_edit => {
+                                    let open = evs.iter().rev().find(|e| e.1 == *k).map(|e| e.0).unwrap_or(false);
+                                    if open {
+                                        let _ = guarded(AssertUnwindSafe(|| l.mr.push(ep, plain, *now)));
+                                        if let Some(c) = close {
+                                            let _ = guarded(AssertUnwindSafe(|| l.mr.push(ep, c, *now)));
+                                        }
+                                    }
+                                }
+                                Some(plain) => {
+                                    let _ = guarded(AssertUnwindSafe(|| l.mr.push(ep, plain, *now)));
+                                }
+                                None => {
+                                    let _ = guarded(AssertUnwindSafe(|| l.mr.push(ep, data, *now)));
+                                }
+                            }
+                        }
+                    }
+                    HOp::Cleanup(now) => {
+                        let _ = guarded(AssertUnwindSafe(|| l.mr.cleanup(*now)));
+                    }
+                    _ => {}
+                }
+                evs.extend(l.ev.borrow_mut().drain(..));
+                cbs.extend(l.cb.borrow_mut().drain(..));
+            }
+        }
+    }
     fn finish(&mut self) {
         if let Some(l) = self.live.take() {
             let Live { mr, ev, cb } = l;
@@ -855,12 +905,14 @@ impl Engine for TsiEngine {
         self.pending.clear();
         self.stale.clear();
         self.hist.clear();
+        self.reps.clear();
         self.all_ev.clear();
         self.all_cb.clear();
         self.had_tick = false;
         self.has_neutral_edits = false;
         self.opn = 0;
         self.sec.clear();
+        self.last_data.clear();
         self.completes = 0;
         self.sessions_with_complete = 0;
     }
@@ -921,7 +973,7 @@ impl Engine for TsiEngine {
                 }
                 self.timeout = to;
                 self.spec = Spec { filtering: f, ..Default::default() };
-                self.hist.push(HOp::New(f, to));
+                self.record(HOp::New(f, to));
                 self.live = Some(new_live(f, to, T_MS));
                 "ok".into()
             }
@@ -930,18 +982,17 @@ impl Engine for TsiEngine {
                     (Some(e), Ok(x)) => (e, x),
                     _ => return "bad-op".into(),
                 };
-                let l = match self.live.as_mut() {
-                    Some(l) => l,
-                    None => return "bad-op".into(),
-                };
+                if self.live.is_none() {
+                    return "bad-op".into();
+                }
                 if t[1] == "add" {
                     Spec::inc(&mut self.spec.cnt, key_tok(&ep, tsi));
-                    self.hist.push(HOp::Add(ep.clone(), tsi));
-                    l.mr.add_listen_tsi(ep, tsi);
+                    self.record(HOp::Add(ep.clone(), tsi));
+                    self.live.as_mut().unwrap().mr.add_listen_tsi(ep, tsi);
                 } else {
                     Spec::dec(&mut self.spec.cnt, key_tok(&ep, tsi));
-                    self.hist.push(HOp::Rm(ep.clone(), tsi));
-                    l.mr.remove_listen_tsi(&ep, tsi);
+                    self.record(HOp::Rm(ep.clone(), tsi));
+                    self.live.as_mut().unwrap().mr.remove_listen_tsi(&ep, tsi);
                 }
                 "ok".into()
             }
@@ -950,18 +1001,17 @@ impl Engine for TsiEngine {
                     Some(e) => e,
                     None => return "bad-op".into(),
                 };
-                let l = match self.live.as_mut() {
-                    Some(l) => l,
-                    None => return "bad-op".into(),
-                };
+                if self.live.is_none() {
+                    return "bad-op".into();
+                }
                 if t[1] == "addall" {
                     Spec::inc(&mut self.spec.byp, ep_tok(&ep));
-                    self.hist.push(HOp::AddAll(ep.clone()));
-                    l.mr.add_listen_all_tsi(ep);
+                    self.record(HOp::AddAll(ep.clone()));
+                    self.live.as_mut().unwrap().mr.add_listen_all_tsi(ep);
                 } else {
                     Spec::dec(&mut self.spec.byp, ep_tok(&ep));
-                    self.hist.push(HOp::RmAll(ep.clone()));
-                    l.mr.remove_listen_all_tsi(&ep);
+                    self.record(HOp::RmAll(ep.clone()));
+                    self.live.as_mut().unwrap().mr.remove_listen_all_tsi(&ep);
                 }
                 "ok".into()
             }
@@ -971,13 +1021,12 @@ impl Engine for TsiEngine {
                     "1" => true,
                     _ => return "bad-op".into(),
                 };
-                let l = match self.live.as_mut() {
-                    Some(l) => l,
-                    None => return "bad-op".into(),
-                };
+                if self.live.is_none() {
+                    return "bad-op".into();
+                }
                 self.spec.filtering = b;
-                self.hist.push(HOp::Filt(b));
-                l.mr.set_tsi_filtering(b);
+                self.record(HOp::Filt(b));
+                self.live.as_mut().unwrap().mr.set_tsi_filtering(b);
                 "ok".into()
             }
             ("push", n) if n >= 5 => {
@@ -991,7 +1040,14 @@ impl Engine for TsiEngine {
                 let mut b_edit = false;
                 let mut close_pkt: Option<Rc<Vec<u8>>> = None;
                 let data: Rc<Vec<u8>> = match kind {
-                    "x" => Rc::new(garbage()),
+                    "x" => {
+                        let v = garbage_variants();
+                        let n = t.get(5).and_then(|x| x.parse::<usize>().ok()).unwrap_or(0);
+                        match v.get(n) {
+                            Some(d) => d.clone(),
+                            None => return "bad-op".into(),
+                        }
+                    }
                     "d" | "c" => {
                         let sid = match t.get(5).and_then(|x| x.parse::<u32>().ok()) {
                             Some(s) => s,
@@ -1061,8 +1117,10 @@ impl Engine for TsiEngine {
                     return "bad-op".into();
                 }
                 self.had_tick = true;
-                self.hist.push(HOp::Tick);
+                self.record(HOp::Tick);
                 std::thread::sleep(Duration::from_millis(TICK_MS));
+                // the caller-supplied time moves with the wall clock
+                self.opn += TICK_MS;
                 self.stale = self.pending.clone();
                 "ok".into()
             }
@@ -1073,9 +1131,12 @@ impl Engine for TsiEngine {
                     None => return "bad-op".into(),
                 };
                 let log: EvLog = Rc::new(RefCell::new(Vec::new()));
-                let id = l.mr.add_listener(Listener { log: log.clone() });
-                self.sec.insert(id, (log, n, None));
-                format!("ok {}", id)
+                // the line names listeners by ordinal (the recording listener of `new` is 0): the ids the implementation
+                // hands out are its own business
+                let real = l.mr.add_listener(Listener { log: log.clone() });
+                let ord = self.sec.len() as u64 + 1;
+                self.sec.insert(ord, (log, n, None, real));
+                format!("ok {}", ord)
             }
             ("lrm", 3) => {
                 let id = match t[2].parse::<u64>() {
@@ -1087,7 +1148,9 @@ impl Engine for TsiEngine {
                     Some(l) => l,
                     None => return "bad-op".into(),
                 };
-                l.mr.remove_listener(id);
+                // an ordinal that was never handed out stands for an id the implementation does not know
+                let real = self.sec.get(&id).map(|e| e.3).unwrap_or(u64::MAX);
+                l.mr.remove_listener(real);
                 if let Some(e) = self.sec.get_mut(&id) {
                     if e.2.is_none() {
                         e.2 = Some(n);
@@ -1150,20 +1213,20 @@ impl Engine for TsiEngine {
             o.fails.extend(o2.fails);
         }
         // isolation: per key, callbacks and listener events of the interleaved run = those of a solo run and of the
-        // reference run (cases with real-time ticks included: the replay sleeps once per tick for all keys together)
+        // reference run, which ran in lock-step with the receiver under test (`record`)
         if self.hist.is_empty() {
             return;
         }
-        let mut keys: BTreeSet<String> = BTreeSet::new();
-        for h in self.hist.iter() {
-            if let HOp::Push { key, .. } = h {
-                keys.insert(key.clone());
+        let mut reps = std::mem::take(&mut self.reps);
+        for r in reps.iter_mut() {
+            r.finish();
+        }
+        let keys: BTreeSet<String> = reps.iter().map(|r| r.key.clone()).collect();
+        for c in self.all_cb.iter() {
+            if !keys.contains(&c.key) {
+                o.fail("callback-key", &format!("a writer callback carries {} although no packet of that key was ever pushed", c.key));
             }
         }
-        for c in self.all_cb.iter() {
-            keys.insert(c.key.clone());
-        }
-        let reps = self.replay_all(&keys);
         for k in keys.iter() {
             let solo = reps.iter().find(|r| r.key == *k && !r.reference).unwrap();
             let refr = reps.iter().find(|r| r.key == *k && r.reference).unwrap();
@@ -1402,7 +1465,9 @@ fn session_case(ctx: &mut Ctx, eng: &mut dyn Engine, rng: &mut Rng, id: &str, or
             continue;
         }
         if r < 26 {
-            astep(ctx, eng, &format!("tsi push {} {} x", sess[si].ep, sess[si].tsi));
+            let ng = garbage_variants().len() as u64;
+            astep(ctx, eng, &format!("tsi push {} {} x {}", sess[si].ep, sess[si].tsi, rng.below(ng)));
+            ctx.count("unparsable datagrams pushed");
             continue;
         }
         if r < 40 && filtering {
@@ -1420,7 +1485,7 @@ fn session_case(ctx: &mut Ctx, eng: &mut dyn Engine, rng: &mut Rng, id: &str, or
             astep(ctx, eng, &line);
             continue;
         }
-        if r < 70 && ticks < max_ticks {
+        if (r < 70 && ticks < max_ticks) || (with_ticks && ticks == 0 && remaining * 2 < total) {
             ticks += 1;
             astep(ctx, eng, "tsi tick");
             // some sessions get fresh data right after the time-out period, the others expire at the next cleanup
@@ -1532,7 +1597,7 @@ fn session_case(ctx: &mut Ctx, eng: &mut dyn Engine, rng: &mut Rng, id: &str, or
 pub fn run(ctx: &mut Ctx, eng: &mut dyn Engine) {
     let thorough = ctx.tier_thorough;
     let (d_full, d_one) = if thorough { (5usize, 6usize) } else { (4usize, 5usize) };
-    let (n_iso, n_lis, n_exp, n_race, race_n) = if thorough { (6000, 6000, 300, 10, 8000) } else { (600, 600, 40, 3, 4000) };
+    let (n_iso, n_lis, n_exp, n_race, race_n) = if thorough { (6000, 6000, 60, 10, 8000) } else { (600, 600, 6, 3, 4000) };
     ctx.rule = format!(
         "(a) EXHAUSTIVE add/remove/bypass sequences: alphabet 2 endpoints x (source 10.0.0.7 | no source) x TSI 1,2 (24 ops) to depth {}, \
          and alphabet 1 endpoint x source/no-source x TSI 1,2 (12 ops) to depth {}; after each sequence all 8 (endpoint, source?, tsi) data packets \
@@ -1584,6 +1649,7 @@ pub fn run(ctx: &mut Ctx, eng: &mut dyn Engine) {
         eng.reset();
         ctx.case(&format!("race-{}", i));
         ctx.step(eng, &format!("tsi race {}", race_n));
+        *ctx.dist.entry("race: sessions closed by cleanup while it ran (the rest at drop)".to_string()).or_insert(0) += RACE_IN_CLEANUP.with(|c| c.get());
         ctx.end_case(eng);
         ctx.nontrivial(&format!("race-{}", i));
     }
